@@ -18,8 +18,12 @@
                                        UpdatePaymentTarget, deletePaymentAndReleaseHold  -> [pay_*]
       x/exchange/keeper/market.go      CloseMarket, WithdrawMarketFunds                  -> [close_market], [withdraw]
       x/exchange/keeper/genesis.go     InitGenesis (hold coverage check)                 -> [genesis_init]
+      x/hold/keeper/locked_coins.go    GetLockedCoins (answers unless the HOLD bypass is set;
+                                       the bank's vesting-locked bypass does not concern it) -> [hold_of] in [spendable], [delegate_coins]
       cosmos-sdk (fork) x/bank/keeper  LockedCoins = unvested + hold, SpendableCoins,
                                        subUnlockedCoins, addCoins                        -> [vlock_of], [spendable], [spend], [credit]
+                                       DelegateCoins (LockedCoins with the vesting bypass),
+                                       x/auth/vesting TrackDelegation                    -> [delegate]
 
     Conventions / what is assumed about anything external:
     - Accounts, denoms, markets, order ids and payment external ids are interned to [Z] by the
@@ -32,13 +36,17 @@
     - Stores are first-match association lists ([afind]/[aset]/[adel]); a KV store is the special
       case with distinct keys, which every function here preserves ([kv_ok], Proofs/HoldsWf.v).
     - Bank (forked cosmos-sdk, trusted): locked coins of an account are the coins still vesting
-      ([vest], constant during a history: no block time passes and nothing is delegated) plus the
-      coins on hold; [spend] is subUnlockedCoins (refuses to take the balance below what is
+      ([vest]; it changes only when block time moves on ([OTime], the new locks are an observed
+      input) or the account delegates ([ODelegate])) plus the coins on hold; [spend] is subUnlockedCoins (refuses to take the balance below what is
       locked), [credit] is addCoins.  Recipients of exchange fees (market account, fee collector)
       are not tracked; a market withdrawal is only the credit to the receiving account.
     - What the model does NOT decide: market flags, permissions other than the cancel permission
       bit handed in with OCancel, required attributes, fee sufficiency, marker send restrictions,
-      BuildSettlement's matching.  Every operation carries [adm] = "every check the model does not
+      BuildSettlement's matching, and address SPELLING: accounts are identified by their bytes,
+      while RejectPayment / AcceptPayment / UpdatePaymentTarget compare the stored target string
+      and CancelOrder the stored owner string with the canonical (lower-case) spelling -- a
+      payment whose target was given in upper-case bech32 cannot be rejected through
+      MsgRejectPayment (only through MsgRejectPayments, which goes by the index).  Every operation carries [adm] = "every check the model does not
       make itself passed".  With [adm = false] the state is unchanged (tx rollback).  With
       [adm = true] the model applies the hold-relevant effect and REFUSES ([RRefused], state
       unchanged) when its own checks fail: existence, owner-or-permission for a cancel, spendable
@@ -189,6 +197,8 @@ Definition set_holds (s : state) (x : list (key2 * Z)) : state :=
   mk_state (orders s) (last_id s) (commits s) (pays s) x (bals s) (vest s).
 Definition set_bals (s : state) (x : list (key2 * Z)) : state :=
   mk_state (orders s) (last_id s) (commits s) (pays s) (holds s) x (vest s).
+Definition set_vest (s : state) (x : list (key2 * Z)) : state :=
+  mk_state (orders s) (last_id s) (commits s) (pays s) (holds s) (bals s) x.
 
 Definition hold_of (s : state) (a d : Z) : Z := zget (a, d) (holds s).
 Definition bal_of (s : state) (a d : Z) : Z := zget (a, d) (bals s).
@@ -260,6 +270,24 @@ Fixpoint credit (s : state) (a : Z) (cs : coins) : option state :=
 Definition send (s : state) (from to : Z) (cs : coins) : option state :=
   obind (spend s from cs) (fun s1 => credit s1 to cs).
 
+(** DelegateCoins (bank; reached from staking's MsgDelegate / MsgCreateValidator): the one bank
+    route that asks for the locked coins with the "vesting locked bypass" flag set, so coins that
+    are still vesting MAY be delegated, while every other locked-coins getter -- the hold module's
+    among them -- must keep answering: per coin, [balance - on hold] must cover the amount.  The
+    balance goes down; a vesting account's TrackDelegation then counts the delegated coins against
+    the still-vesting ones first (X = min(max(V - DV, 0), D)), so its vesting lock shrinks by the
+    amount (not below zero).  Coins.IsValid: positive amounts, no denom twice. *)
+Fixpoint delegate_coins (s : state) (a : Z) (cs : coins) : option state :=
+  match cs with
+  | [] => Some s
+  | c :: r =>
+      let d := fst c in let v := snd c in
+      if bal_of s a d - hold_of s a d <? v then None
+      else delegate_coins
+             (set_vest (set_bals s (aset k2_eqb (a, d) (bal_of s a d - v) (bals s)))
+                       (aset k2_eqb (a, d) (Z.max 0 (vlock_of s a d - v)) (vest s))) a r
+  end.
+
 (** Net effect of a group of bank transfers (signed deltas per (account, denom)); every spend
     inside the group was checked by the bank, so at the end no touched balance is below its hold,
     and a balance that was debited is not below hold + still-vesting either. *)
@@ -290,6 +318,13 @@ Fixpoint dedupe (l : list Z) (seen : list Z) : list Z :=
   | [] => []
   | x :: r => if existsb (Z.eqb x) seen then dedupe r seen else x :: dedupe r (x :: seen)
   end.
+
+Definition delegate (a : Z) (cs : coins) (s : state) : option state :=
+  if negb (coins_pos cs && nodupb (map fst cs)) then None else delegate_coins s a cs.
+
+(** Block time moves on: the vesting schedules unlock coins.  The new locks are an input (the
+    SDK's vesting arithmetic is not modelled); nothing else changes. *)
+Definition set_time (v : list (key2 * Z)) (s : state) : option state := Some (set_vest s v).
 
 (** ** Orders (keeper). *)
 (** CreateAskOrder / CreateBidOrder: collect the creation fee, store under the next id, place
@@ -515,6 +550,8 @@ Inductive op :=
 | OManageFees (adm : bool)          (* any market administration that touches neither records nor funds *)
 | OSetExtId (adm : bool) (id : Z)
 | OWithdraw (adm : bool) (to : Z) (amount : coins)
+| ODelegate (adm : bool) (a : Z) (amount : coins)   (* staking delegation of the account's own funds *)
+| OTime (adm : bool) (v : list (key2 * Z))          (* block time advanced; the vesting locks are now [v] *)
 | OCloseMarket (adm : bool) (m : Z).
 
 (** [ROk] accepted; [RRejected] refused by a check outside the model ([adm = false]);
@@ -526,7 +563,7 @@ Definition op_adm (o : op) : bool :=
   | OCreate b _ _ | OCancel b _ _ _ | OSettle b _ _ _ _ | OCommit b _ _ _ _ | ORelease b _ _
   | OCommitSettle b _ _ _ _ | OPayCreate b _ _ _ _ _ | OPayAccept b _ _ _ _ _
   | OPayReject b _ _ _ | OPayRejectAll b _ _ | OPayCancel b _ _ | OPayRetarget b _ _ _
-  | OManageFees b | OSetExtId b _ | OWithdraw b _ _ | OCloseMarket b _ => b
+  | OManageFees b | OSetExtId b _ | OWithdraw b _ _ | ODelegate b _ _ | OTime b _ | OCloseMarket b _ => b
   end.
 
 Definition op_fun (o : op) : state -> option state :=
@@ -546,6 +583,8 @@ Definition op_fun (o : op) : state -> option state :=
   | OManageFees _ => fun s => Some s
   | OSetExtId _ id => set_ext_id id
   | OWithdraw _ to amount => withdraw to amount
+  | ODelegate _ a amount => delegate a amount
+  | OTime _ v => set_time v
   | OCloseMarket _ m => close_market m
   end.
 
@@ -614,6 +653,8 @@ Definition reserved_delta (s : state) (o : op) (a d : Z) : Z :=
   | OManageFees _ => 0
   | OSetExtId _ _ => 0
   | OWithdraw _ _ _ => 0
+  | ODelegate _ _ _ => 0
+  | OTime _ _ => 0
   | OCloseMarket _ m =>
       - sum_by (order_req a d) (market_orders m (orders s))
       - sum_by (commit_req a d) (market_commits m (commits s))
